@@ -28,7 +28,9 @@ Proved here, with no convergence hypothesis left:
 * (D) `C07_exit_latitude_error` — at exit |B − φ| ≤ (50/49)·1e-12 rad, the divisor is non-zero;
   `C07_exit_height_error` — |h_exit − h| ≤ (a + h)·5e-11;
   `C07_geodetic_roundtrip` — `cart2geodetic ∘ geodetic2cart` is the identity up to (a+h)·5e-11 in height, 6e-11° in
-  latitude, exactly in longitude; `…_1cm` / `…_wgs84` / `…_mars`: ≤ 1 cm and ≤ 1e-7° for −10 km ≤ h ≤ 1000 km.
+  latitude, exactly in longitude; `…_1cm` / `…_wgs84` / `…_mars`: ≤ 1 cm and ≤ 1e-7° for −10 km ≤ h ≤ 1000 km;
+  `C07_cart_roundtrip_geodetic` (`…_1cm`, `…_wgs84`, `…_mars`) — the reverse composition `geodetic2cart ∘ cart2geodetic`
+  reproduces x, y exactly and z up to (a+h)·5e-11 (≤ 1 cm).
 
 All of this is about the real-number reading of the code (exact arithmetic); floating-point rounding is validated
 numerically by the harness only.
@@ -190,6 +192,47 @@ theorem C07_geodetic_roundtrip_mars (h lat lon : ℝ) (hlat : |lat| ≤ 88) (hh 
     (by simp only [ellipsoidmodels_EllipsoidMars]; norm_num) (by simp only [ellipsoidmodels_EllipsoidMars]; norm_num)
     hlat hh hlon
 
+/-- (D, reverse composition) `geodetic2cart ∘ cart2geodetic` on a point (x, y, z) that is the image of a domain point:
+x and y are reproduced exactly and z up to `(a + h)·5e-11` (the exit test gives |B − B₀| ≤ 1e-12, on the domain
+cos B₀ ≥ 1/46 and |N(1−e²) + h_exit| ≤ 1.03 (a + h)). -/
+theorem C07_cart_roundtrip_geodetic (h lat lon a e : ℝ) (ha : 0 < a) (he0 : 0 < e) (he2 : e ^ 2 ≤ 3 / 250)
+    (hlat : |lat| ≤ 88) (hh : -(a / 300) ≤ h) :
+    let q := geodetic2cart h lat lon a e
+    let g := cart2geodetic q.1 q.2.1 q.2.2 a e
+    let p := geodetic2cart g.1 g.2.1 g.2.2 a e
+    p.1 = q.1 ∧ p.2.1 = q.2.1 ∧ |p.2.2 - q.2.2| ≤ (a + h) / 20000000000 :=
+  ctr_cart_roundtrip h lat lon a e ha he0 he2 hlat hh
+
+/-- … to better than 1 cm for planet-sized ellipsoids and −10 km ≤ h ≤ 1000 km: together with
+`C07_geodetic_roundtrip_1cm` the two conversions are mutually inverse to better than 1 cm / 1e-7°. -/
+theorem C07_cart_roundtrip_1cm (h lat lon a e : ℝ) (ha : 3000000 ≤ a ∧ a ≤ 100000000) (he0 : 0 < e)
+    (he2 : e ^ 2 ≤ 3 / 250) (hlat : |lat| ≤ 88) (hh : -10000 ≤ h ∧ h ≤ 1000000) :
+    let q := geodetic2cart h lat lon a e
+    let g := cart2geodetic q.1 q.2.1 q.2.2 a e
+    let p := geodetic2cart g.1 g.2.1 g.2.2 a e
+    p.1 = q.1 ∧ p.2.1 = q.2.1 ∧ |p.2.2 - q.2.2| ≤ 1 / 100 := by
+  intro q g p
+  obtain ⟨h1, h2, h3⟩ := C07_cart_roundtrip_geodetic h lat lon a e (by linarith [ha.1]) he0 he2 hlat (by linarith [ha.1, hh.1])
+  refine ⟨h1, h2, h3.trans ?_⟩
+  linarith [ha.2, hh.2]
+
+theorem C07_cart_roundtrip_wgs84 (h lat lon : ℝ) (hlat : |lat| ≤ 88) (hh : -10000 ≤ h ∧ h ≤ 1000000) :
+    let q := geodetic2cart h lat lon ellipsoidmodels_WGS84.1 ellipsoidmodels_WGS84.2
+    let g := cart2geodetic q.1 q.2.1 q.2.2 ellipsoidmodels_WGS84.1 ellipsoidmodels_WGS84.2
+    let p := geodetic2cart g.1 g.2.1 g.2.2 ellipsoidmodels_WGS84.1 ellipsoidmodels_WGS84.2
+    p.1 = q.1 ∧ p.2.1 = q.2.1 ∧ |p.2.2 - q.2.2| ≤ 1 / 100 :=
+  C07_cart_roundtrip_1cm h lat lon _ _ (by simp only [ellipsoidmodels_WGS84]; norm_num)
+    (by simp only [ellipsoidmodels_WGS84]; norm_num) (by simp only [ellipsoidmodels_WGS84]; norm_num) hlat hh
+
+theorem C07_cart_roundtrip_mars (h lat lon : ℝ) (hlat : |lat| ≤ 88) (hh : -10000 ≤ h ∧ h ≤ 1000000) :
+    let q := geodetic2cart h lat lon ellipsoidmodels_EllipsoidMars.1 ellipsoidmodels_EllipsoidMars.2
+    let g := cart2geodetic q.1 q.2.1 q.2.2 ellipsoidmodels_EllipsoidMars.1 ellipsoidmodels_EllipsoidMars.2
+    let p := geodetic2cart g.1 g.2.1 g.2.2 ellipsoidmodels_EllipsoidMars.1 ellipsoidmodels_EllipsoidMars.2
+    p.1 = q.1 ∧ p.2.1 = q.2.1 ∧ |p.2.2 - q.2.2| ≤ 1 / 100 :=
+  C07_cart_roundtrip_1cm h lat lon _ _ (by simp only [ellipsoidmodels_EllipsoidMars]; norm_num)
+    (by simp only [ellipsoidmodels_EllipsoidMars]; norm_num) (by simp only [ellipsoidmodels_EllipsoidMars]; norm_num)
+    hlat hh
+
 /-! ## Non-vacuity: the domain hypotheses are satisfiable (corners of the domain, both eccentric models) -/
 
 /-- WGS84, lat = −88°, h = −10 km, lon = 180° -/
@@ -211,8 +254,17 @@ example : ∃ h lat lon a e : ℝ, (3000000 ≤ a ∧ a ≤ 100000000) ∧ 0 < e
     ∧ (-10000 ≤ h ∧ h ≤ 1000000) ∧ (-180 < lon ∧ lon ≤ 180) :=
   ⟨-10000, 0, 0, 3396190, 1083 / 10000, by norm_num, by norm_num, by norm_num, by norm_num, by norm_num, by norm_num⟩
 
-/-- the contraction statement is not trivially `0 ≤ 0`: two different latitudes are allowed, e.g. B1 = 0, B2 = 1 -/
-example : ∃ B1 B2 : ℝ, B1 ≠ B2 := ⟨0, 1, by norm_num⟩
+/-- `C07_iteration_contracts` at two concrete states (latitudes 0 and 1 rad) for the point (h, lat, lon) = (0, 45°, 0°)
+of an ellipsoid with a = 6378137, e = 0.08: one pass brings them within 1/50 rad of each other -/
+example :
+    |(cart2geodetic_loop1_body (geodetic2cart 0 45 0 6378137 (2 / 25)).1 (geodetic2cart 0 45 0 6378137 (2 / 25)).2.1
+        (geodetic2cart 0 45 0 6378137 (2 / 25)).2.2 6378137 (2 / 25) ((2 / 25) ^ 2) (0, 0, 0, 0)).2.2.2
+      - (cart2geodetic_loop1_body (geodetic2cart 0 45 0 6378137 (2 / 25)).1 (geodetic2cart 0 45 0 6378137 (2 / 25)).2.1
+        (geodetic2cart 0 45 0 6378137 (2 / 25)).2.2 6378137 (2 / 25) ((2 / 25) ^ 2) (0, 0, 0, 1)).2.2.2| ≤ 1 / 50 := by
+  have h := C07_iteration_contracts 0 45 0 6378137 (2 / 25) 0 0 0 0 0 0 0 1 (by norm_num) (by norm_num) (by norm_num)
+    (by norm_num [abs_le]) (by norm_num)
+  simp only [zero_sub, abs_neg, abs_one, mul_one] at h
+  exact h
 
 /-- the conclusion of `C07_loop_terminates` is used with a concrete point: the loop exits for the WGS84 point
 (h, lat, lon) = (0, 45°, 0°) -/
@@ -232,4 +284,5 @@ example : ∃ n : ℕ, ¬ cart2geodetic_loop1_cond_any (geodetic2cart 0 45 0 637
 assert_axioms C07_iteration_contracts C07_fixed_point_is_true_latitude C07_loop_terminates C07_loop_pass_count
   C07_exit_latitude_error
   C07_exit_height_error C07_cart2geodetic_at_exit C07_geodetic_roundtrip C07_geodetic_roundtrip_1cm
-  C07_geodetic_roundtrip_wgs84 C07_geodetic_roundtrip_mars
+  C07_geodetic_roundtrip_wgs84 C07_geodetic_roundtrip_mars C07_cart_roundtrip_geodetic C07_cart_roundtrip_1cm
+  C07_cart_roundtrip_wgs84 C07_cart_roundtrip_mars
